@@ -86,6 +86,8 @@ type Pipe struct {
 	CloseBehaviour string // eof | err | stay | late : what a blocked/later Read does after Close
 	LateOnClose    []byte // "late": what the Read that was under way at Close comes back with, 30 ms later
 	failReadOnce   bool
+	ReuseBuf       bool // Read returns a slice of one long-lived buffer (what it returned before is overwritten by the next read)
+	rbuf           []byte
 	CloseErr       error // returned by Close (which closes all the same): "connection reset by peer" and the like
 	opened         bool
 	closed         bool
@@ -398,7 +400,19 @@ func (p *Pipe) Read(n int) ([]byte, error) {
 				continue
 			}
 
-			b := make([]byte, k)
+			var b []byte
+
+			if p.ReuseBuf {
+				// an io.Reader-style transport: every read is handed out in the same buffer
+				if cap(p.rbuf) < k {
+					p.rbuf = make([]byte, 0, 16384+k)
+				}
+
+				b = p.rbuf[:k]
+			} else {
+				b = make([]byte, k)
+			}
+
 			copy(b, p.out[:k])
 			p.out = p.out[k:]
 			p.delivered += k
